@@ -175,7 +175,7 @@ class Gen:
         r = self.r
         parts = []
         self.slot_depth = getattr(self, "slot_depth", 0) + 1
-        lits = ["", "a", "é", "€ ", "x=", "\\$", " "] + (["{", "}"] if self.slot_depth == 1 else [])
+        lits = ["", "a", "é", "€ ", "x=", "\\$", " ", "\\x41", "\\n"] + (["{", "}"] if self.slot_depth == 1 else [])
         for _ in range(r.randrange(1, 4)):
             parts.append(r.choice(lits))
             parts.append("${" + self.expr("str", d + 2) + "}")
